@@ -429,9 +429,22 @@ theorem strict_of_save_stream (d : SDoc) (out : Bytes) (d' : SDoc)
     have := (hwf.range p hp).2
     have hne : ¬ (p.1.1 = d.maxId + 1) := by omega
     simp [hne]
+  have hnd0 : d.trailer.keys.Nodup := by
+    have := htr.1; simp only [ObjRt.WFObj, ObjRt.WF] at this; exact this.1
+  obtain ⟨_, fS, _, _, f5⟩ := streamTrailer_facts [] d hnd0
+    (.int (xrefStreamContent (streamSecs (xmapStream [] d) (d.maxId + 1))).length)
+  rw [Dict_set_same _ _ _ f5] at fS
+  have hks : Dict.get (streamTrailer [] d) kSize = some (.int ((d.maxId + 1 + 1 : Nat) : Int)) := fS
+  have hallsz : ((List.filter (fun p => ![d.maxId + 1].contains p.fst.fst) d.objects).all
+      fun p => decide (((p.1.1 : Nat) : Int) < ((d.maxId + 1 + 1 : Nat) : Int))) = true := by
+    rw [List.all_eq_true]
+    intro p hp
+    have := (hwf.range p (List.mem_filter.mp hp).1).2
+    simp only [decide_eq_true_eq]; omega
   unfold strictLoad
   simp only [hlast, hrev, bne_self_eq_false, Bool.false_eq_true, if_false, mergeRevs, List.length_singleton,
-    List.filterMap_cons, List.filterMap_nil, htr']
+    List.filterMap_cons, List.filterMap_nil, htr', hks]
+  simp only [List.contains_nil, Bool.not_false, List.nil_append, List.append_nil, hallsz, Bool.not_true, Bool.false_eq_true, if_false]
   have hall : ∀ (a b : Nat) (o : Obj), ((a, b), o) ∈ d.objects → ¬ a = d.maxId + 1 := by
     intro a b o hm
     have := (hwf.range _ hm).2
